@@ -25,7 +25,7 @@ ORIGIN_FILES = {
     'error': 'src/error.rs', 'traits': 'src/traits.rs', 'util': 'src/util.rs', 'storage': 'src/archetype/storage.rs',
     'components': 'src/archetype/components.rs', 'slices': 'src/archetype/slices.rs', 'view': 'src/archetype/view.rs',
     'iter': 'src/iter.rs', 'query': 'macros/src/generate/query.rs', 'data': 'macros/src/data.rs',
-    'world': 'macros/src/generate/world.rs',
+    'world': 'macros/src/generate/world.rs', 'gworld': 'macros/src/generate/world.rs',
 }
 
 TRUSTED_PATTERNS = [
@@ -68,6 +68,33 @@ class Job:
         return '%s[%s,N=%d]' % (self.unit, self.cfg.name, self.n)
 
 
+def confirm_file(job):
+    """Copy of the generated file (same line numbering) in which every function touched by a failed obligation of the first run
+    gets `#[verifier::spinoff_prover]`: its own solver instance.  A failed query slows down and destabilises every later query
+    of a shared Z3 context (measured: 27 s -> 250 s for the same file), so the confirmation run isolates exactly those functions."""
+    gen = job.gen
+    lines = gen.text.split('\n')
+    touched = set()
+    for d in job.res.diags:
+        if d.kind() not in ('verif', 'limit'):
+            continue
+        cand = [d.primary_line] + [l[0] for l in d.lines_in(gen.path)]
+        for ln in cand:
+            f = gen.fn_at(ln) if ln else None
+            if f:
+                touched.add(f['sig_line'])
+    for ln in touched:
+        t = lines[ln - 1]
+        if 'spinoff_prover' in t or 'spinoff_prover' in lines[max(0, ln - 2)]:
+            continue
+        ind = len(t) - len(t.lstrip())
+        lines[ln - 1] = t[:ind] + '#[verifier::spinoff_prover] ' + t[ind:]
+    path = gen.path[:-3] + '_confirm.rs'
+    with open(path, 'w') as fh:
+        fh.write('\n'.join(lines))
+    return path
+
+
 def run_job(job):
     try:
         job.gen = job.builder(job.cfg, job.n, GEN)
@@ -93,7 +120,7 @@ def run_job(job):
             # only functions that fail in BOTH runs are reported (never an alarm from solver instability).
             if any(d.kind() in ('verif', 'limit') for d in job.res.diags) and not os.environ.get('GV_NO_CONFIRM'):
                 first = job.res
-                second = verus.run(job.gen.path, rlimit=30, threads=max(job.threads, 8), extra=['-V', 'spinoff-all'])
+                second = verus.run(confirm_file(job), rlimit=30, threads=max(job.threads, 8))
                 if not second.crashed:
                     failed2 = set()
                     for d in second.diags:
@@ -179,6 +206,17 @@ class Failure:
                     o, t = gen.linemap[ln - 1]
                     tags.update(t)
             clause_lines.append(ls)
+        # a postcondition stated on a TRAIT method is reported at the trait's clause; the function that failed to establish it is the
+        # implementation whose body span carries the label "at the end of the function body" / "at this exit": it is the function
+        # named in the report, and the properties IT serves are added (the generic clause cannot know the key kind)
+        for (ls, le, label, primary) in diag.lines_in(gen.path):
+            if 'at the end of the function body' in (label or '') or 'at this exit' in (label or ''):
+                g = gen.fn_at(ls)
+                if g is not None and self.fn is not None and g['key'] != self.fn['key']:
+                    tags.update(g.get('props', []))
+                    self.fn = g
+                    self.fn_key = g['key']
+                    break
         if not tags and self.fn:
             # an untagged obligation (e.g. an intermediate assert of a proof hint, an overflow check, a callee precondition):
             # some postcondition of this function is no longer established, we do not know which -> every property the function serves
